@@ -86,6 +86,8 @@ def tagsOf (sc : Scenario) (steps : List IStep) (nd : Bool) : List String :=
   (if sc.cfg.mode == 1 then ["wlc"] else if sc.cfg.mode == 2 then ["sticky"] else ["wrr"]) ++
   (if sc.cfg.failNum > 0 then ["health"] else []) ++
   (if steps.any (·.flip) then ["health-flip"] else []) ++
+  (if steps.any (fun s => s.isInv && s.dead) then ["cb-panic"] else []) ++
+  (if sc.sched.any (fun st => match st with | .remove _ => true | _ => false) then ["reload-remove"] else []) ++
   (if steps.any (fun s => s.flip && !s.cn.isEmpty) then ["flip-in-flight"] else []) ++
   (if sc.reqs.any fun r => r.finish.any (· == .finish) then ["reqfin-finish"] else []) ++
   (if sc.reqs.any fun r => r.finish.any (· == .panic) then ["reqfin-panic"] else []) ++
